@@ -139,7 +139,7 @@ impl<'a, 'p> Analyzer<'a, 'p> {
                         );
                     }
                     ast::ExprKind::Paren(inner) => {
-                        state = State::Expr(inner, false);
+                        state = State::Expr(inner, can_be_tailstrict);
                     }
                     ast::ExprKind::Object(ref inside) => {
                         state = State::Analyzed(self.analyze_objinside(inside, env)?);
